@@ -227,6 +227,9 @@ def json_partition(ctx: Ctx):
         for subj, s, text, tc, fc, node in membership_branches(ctx, JS + ".decode_json_container"):
             if isinstance(node, ast.If) and "valid_qualified_name" in tc and "parse_xsd_datetime" in fc and "parse_xsd_datetime" not in tc:
                 dec_ref = (s, text, node)
+    if enc_ref and not enc_time and dec_guard and dec_ref:
+        # no branch prints times with isoformat(): report it through the partition comparison (the writer treats them as names)
+        enc_time = (set(), "<no isoformat() arm>", enc_ref[2])
     if not (enc_ref and enc_time and dec_guard and dec_ref):
         raise AnalysisError("cannot extract the reference/time partition of the JSON codec "
                             "(writer ref=%s time=%s; reader guard=%s ref=%s)" % (bool(enc_ref), bool(enc_time), bool(dec_guard), bool(dec_ref)))
@@ -415,8 +418,10 @@ def c01_r5(ctx: Ctx, rule):
     # 3. the record identifier goes through the resolver when the record is re-created
     nr = ctx.fn(M + ".ProvBundle.new_record")
     ok = False
+    from .paths import record_ctor_func
+
     for c in calls_in(nr.node):
-        if isinstance(c.func, ast.Subscript) and len(c.args) >= 2:
+        if record_ctor_func(ctx, nr.qual, c) is not None and len(c.args) >= 2:
             a = c.args[1]
             if isinstance(a, ast.Call) and call_name(a) == "valid_qualified_name":
                 ok = True
@@ -536,10 +541,11 @@ def unroll_for(ctx: Ctx, qual, loop: ast.For, pre_env):
 
 def written_default_namespaces(ctx: Ctx):
     """prefix -> URI the XML writer declares for the library's default namespaces (loop over DEFAULT_NAMESPACES unrolled)."""
-    wq = XM + ".ProvXMLSerializer.serialize_bundle"
-    wf = ctx.fn(wq)
+    wq0 = XM + ".ProvXMLSerializer.serialize_bundle"
     written = {}
-    for n in walk_function(wf.node):
+    for wq in ctx.helper_closure(wq0):
+      wf = ctx.fn(wq)
+      for n in walk_function(wf.node):
         if isinstance(n, ast.For):
             stores = [s for s in ast.walk(n) if isinstance(s, ast.Subscript) and isinstance(s.ctx, ast.Store) and isinstance(s.value, ast.Name)]
             if not stores:
@@ -733,9 +739,12 @@ def c06_r6(ctx: Ctx, rule):
     bq = M + ".ProvBundle.get_provn"
     bf = ctx.fn(bq)
     toks = set()
-    for s in const_strings(bf.node):
-        if s.strip():
-            toks.add(s.split()[0] if s.split() else s)
+    for q2 in ctx.helper_closure(bq, depth=1):
+        if not q2.startswith(M + ".ProvBundle.") and q2 != bq:
+            continue
+        for s in const_strings(ctx.fn(q2).node):
+            if s.strip():
+                toks.add(s.split()[0] if s.split() else s)
     doc = ast.get_docstring(bf.node) or ""
     for key in ("document", "endDocument", "bundle", "endBundle", "default", "prefix"):
         present = fr[key] in toks
@@ -745,8 +754,10 @@ def c06_r6(ctx: Ctx, rule):
                      "the whole text no longer parses under the PROV-N grammar")
     rq = M + ".ProvRecord.get_provn"
     rf = ctx.fn(rq)
-    consts = [s for s in const_strings(rf.node)]
-    has_sep = any(s.strip() == fr["id_separator"] for s in consts)
+    consts = [s for q2 in ctx.helper_closure(rq) if q2.startswith(M + ".ProvRecord.") for s in const_strings(ctx.fn(q2).node)]
+    # f-string fragments count too ("; " may be the tail of an f-string)
+    consts += [x.strip() + " " if x.endswith("; ") else x for x in list(consts)]
+    has_sep = any(s.strip() == fr["id_separator"] or s.strip().endswith(fr["id_separator"]) for s in consts)
     has_marker = any(s == fr["absent_marker"] for s in consts)
     res.ob("ProvRecord.get_provn separates a relation identifier with %r: %s" % (fr["id_separator"], has_sep))
     res.ob("ProvRecord.get_provn marks an absent argument with %r: %s" % (fr["absent_marker"], has_marker))
@@ -757,17 +768,36 @@ def c06_r6(ctx: Ctx, rule):
     # every registered namespace gets its `prefix` line: the source is the manager's own registry, unfiltered
     from ..mutation import all_assignments as _all_assignments
 
-    for n in walk_function(bf.node):
-        if isinstance(n, (ast.ListComp, ast.GeneratorExp)) and any(isinstance(c, ast.Constant) and isinstance(c.value, str) and c.value.startswith(fr["prefix"] + " ") for c in ast.walk(n.elt)):
-            g0 = n.generators[0]
-            filtered = bool(g0.ifs)
+    prefix_sites = []
+    for q2 in ctx.helper_closure(bq, depth=1):
+        f2 = ctx.fn(q2)
+        for n in walk_function(f2.node):
+            if isinstance(n, (ast.ListComp, ast.GeneratorExp)) and any(isinstance(c, ast.Constant) and isinstance(c.value, str) and c.value.startswith(fr["prefix"] + " ") for c in ast.walk(n.elt)):
+                prefix_sites.append((f2, n, n.generators[0].iter, bool(n.generators[0].ifs)))
+            if isinstance(n, ast.For) and any(isinstance(c, ast.Constant) and isinstance(c.value, str) and c.value.startswith(fr["prefix"] + " ") for b in n.body for c in ast.walk(b)):
+                skipping = any(isinstance(x, (ast.Continue, ast.If)) for b in n.body for x in ast.walk(b))
+                prefix_sites.append((f2, n, n.iter, skipping))
+    for f2, n, it, filtered in prefix_sites:
+        if True:
+            g0 = None
             src_ok = True
-            if isinstance(g0.iter, ast.Name):
-                defs = _all_assignments(bf.node, g0.iter.id)
+            if isinstance(it, ast.Name):
+                defs = _all_assignments(f2.node, it.id)
+                if it.id in f2.params:
+                    defs = []
+                    # handed in by get_provn: the argument there must be the unfiltered registry
+                    for c2 in calls_in(bf.node):
+                        if call_name(c2) == f2.name:
+                            ps = f2.params[1:] if f2.cls else f2.params
+                            idx = ps.index(it.id) if it.id in ps else None
+                            if idx is not None and idx < len(c2.args) and isinstance(c2.args[idx], ast.Name):
+                                defs = _all_assignments(bf.node, c2.args[idx].id)
                 src_ok = len(defs) == 1 and isinstance(defs[0], ast.Call) and call_name(defs[0]) in ("get_registered_namespaces",) and "self" in norm(defs[0].func.value)
+            elif isinstance(it, ast.Call):
+                src_ok = call_name(it) == "get_registered_namespaces" and "self" in norm(it.func.value)
             res.ob("`prefix` lines are printed for every registered namespace of this container (unfiltered, single source): %s" % (not filtered and src_ok))
             if filtered or not src_ok:
-                res.fail(rule.id, "provn-scope::prefix-lines-filtered", ctx.loc(bq, n),
+                res.fail(rule.id, "provn-scope::prefix-lines-filtered", ctx.loc(f2.qual, n),
                          "the `prefix` declarations of a bundle are printed from a filtered / re-assigned list of namespaces",
                          "document ex->A, nested bundle ex->B: the bundle's own `prefix ex <B>` line is dropped, every ex: name in it resolves to A")
     # rendered text is never re-split by lines (a multi-line string value contains newlines of its own)
@@ -987,11 +1017,17 @@ def c10_r2(ctx: Ctx, rule):
     # attribute / structural names used through the _ns_* helpers
     helper_args = {}
     for q in [XM + ".ProvXMLSerializer.serialize_bundle", XM + ".ProvXMLSerializer.serialize", XM + ".ProvXMLSerializer.deserialize_subtree", XM + "._extract_attributes"]:
-        for c in calls_in(ctx.fn(q).node):
-            if call_name(c) in ("_ns_prov", "_ns_xsi", "_ns_xml") and c.args:
-                v = ctx.eval_in(q, c.args[0])
-                if isinstance(v, str):
-                    helper_args.setdefault((call_name(c), v), []).append(q.rsplit(".", 1)[1])
+        for q2 in ctx.helper_closure(q):
+            if not q2.startswith(XM + "."):
+                continue
+            for c in calls_in(ctx.fn(q2).node):
+                if call_name(c) in ("_ns_prov", "_ns_xsi", "_ns_xml") and c.args:
+                    try:
+                        v = ctx.eval_in(q2, c.args[0])
+                    except AnalysisError:
+                        continue
+                    if isinstance(v, str):
+                        helper_args.setdefault((call_name(c), v), []).append(q.rsplit(".", 1)[1])
     wanted = [("_ns_prov", sx["root"], "serialize_bundle"), ("_ns_prov", sx["bundle_element"], "serialize_bundle"), ("_ns_prov", sx["id_attr"], "serialize_bundle"),
               ("_ns_prov", sx["ref_attr"], "serialize_bundle"), ("_ns_xsi", sx["xsi_type_attr"], "serialize_bundle"), ("_ns_xml", sx["xml_lang_attr"], "serialize_bundle"),
               ("_ns_prov", sx["id_attr"], "deserialize_subtree"), ("_ns_prov", sx["ref_attr"], "_extract_attributes"), ("_ns_xsi", sx["xsi_type_attr"], "_extract_attributes"),
@@ -1186,10 +1222,7 @@ def c15_r2(ctx: Ctx, rule):
       decides="every advertised format can be selected by name and tried by prov.read")
 def c16_r3(ctx: Ctx, rule):
     res = RuleResult()
-    ctx.fenv("prov.serializers.Registry.load_serializers")
-    reg = ctx.f.class_attr("prov.serializers.Registry", "serializers")
-    if not isinstance(reg, dict):
-        raise AnalysisError("cannot fold Registry.serializers")
+    reg = ctx.registry_table()
     base = "prov.serializers.Serializer"
     for fmt in ("json", "xml", "rdf", "provn"):
         cls = reg.get(fmt)
@@ -1215,3 +1248,7 @@ def c16_r3(ctx: Ctx, rule):
     if not uses:
         res.fail(rule.id, "registry::read-does-not-enumerate", ctx.loc("prov", rd.node), "prov.read no longer enumerates the serializer registry", "formats added to the registry are never tried")
     return res
+
+
+RULES.setdefault("C10", []).append(Rule("C10.R7", "time-valued formal attributes are written with isoformat() and read as times (shared with C01.R2)", 26, c01_r2, "F-TABLE",
+                                        "prov:time / startTime / endTime are valid xsd:dateTime lexicals for an independent reader"))
